@@ -585,8 +585,8 @@ func skEndsWithReturn(l []ast.Stmt) bool {
 	return true
 }
 
-// tieAssign: `..., v := CALL` where CALL is one or more operations of the Io table and v an
-// error variable.  The statements after it are translated twice: with v known to hold an
+// tieAssign: `..., v := CALL` where CALL is one or more operations of the Io table (or a codec
+// wrapper with channel operations inside) and v an error variable.  The statements after it are translated twice: with v known to hold an
 // error (the error path h, tied to the operation as IoE k h) and with v known to hold none.
 // scoped != nil: the assignment is the init part of `if v := CALL; cond {..}`; scoped is
 // that if statement without its init part and v is not visible after it.
@@ -634,8 +634,14 @@ func (c *skTc) tieAssign(as *ast.AssignStmt, scoped, rest []ast.Stmt, k []skS) (
 		}
 	}
 	ios := c.exprs(call)
-	if !skAllIo(ios) {
-		return nil, false
+	pure := skAllIo(ios)
+	if len(ios) == 0 {
+		return nil, false // a computation: its error test is rendered as IoE Check where it stands
+	}
+	for _, s := range ios {
+		if s.kind == "Io" && s.io == "Unknown" {
+			return nil, false
+		}
 	}
 	var h, okc []skS
 	if scoped != nil {
@@ -651,8 +657,14 @@ func (c *skTc) tieAssign(as *ast.AssignStmt, scoped, rest []ast.Stmt, k []skS) (
 		}
 	}
 	var out []skS
-	for _, io := range ios {
-		out = append(out, skS{kind: "IoE", io: io.io, a: h})
+	if pure {
+		for _, io := range ios {
+			out = append(out, skS{kind: "IoE", io: io.io, a: h})
+		}
+	} else {
+		// a call with channel operations inside (codec wrapper around the channel-backed
+		// reader / writer): its error is that of a computation made after them
+		out = append(append(out, ios...), skS{kind: "IoE", io: "Check", a: h})
 	}
 	return append(out, okc...), true
 }
